@@ -212,11 +212,12 @@ POOL = [None]      # quick tier: generated cases take their configuration from a
 
 
 def set_tier(ctx, pool=64):
-    POOL[0] = pool if ctx.tier == 'quick' else None
+    # generated cases draw their configuration from a fixed pool: 64 seeds in the quick tier, 1024 in the thorough tier
+    POOL[0] = pool if ctx.tier == 'quick' else 16 * pool
 
 
 def cfg_seed(cseed):
-    """seed for the configuration of a generated case: one of a fixed pool in the quick tier, free in the thorough tier"""
+    """seed for the configuration of a generated case: one of a fixed pool (see set_tier)"""
     if POOL[0]:
         return core.subseed(core.DEFAULT_SEED, 'cfg-pool', cseed % POOL[0])
     return cseed
